@@ -1,6 +1,7 @@
 //! vp-net: monitors of the TCP listener over real loopback sockets and real time
 //! (properties C14 C15 C16 C17).
 
+mod c01net;
 mod c03net;
 mod c08net;
 mod c14;
@@ -45,6 +46,23 @@ fn main() {
         child_start(port, timeout);
     }
     let cli = Cli::parse();
+    // C01 mode: the mock session server's port has to be known (and exported for hook H1) before any
+    // other thread exists
+    let session_listener = if cli.prop == "C01" {
+        let l = std::net::TcpListener::bind("127.0.0.1:0").expect("bind loopback");
+        let port = l.local_addr().expect("addr").port();
+        // SAFETY: single-threaded at this point
+        unsafe {
+            for k in ["HTTP_PROXY", "http_proxy", "HTTPS_PROXY", "https_proxy", "ALL_PROXY", "all_proxy"] {
+                std::env::remove_var(k);
+            }
+            std::env::set_var("NO_PROXY", "*");
+            std::env::set_var("PASSAGE_VERIF_SESSION_URL", format!("http://127.0.0.1:{port}"));
+        }
+        Some(l)
+    } else {
+        None
+    };
     report::watchdog(&cli.prop, if cli.tier == vp_common::Tier::Quick { 400 } else { 1500 });
     if let Err(e) = vp_common::refcrypto::self_test() {
         println!("[{}] INCONCLUSIVE: reference crypto self-test failed: {e}", cli.prop);
@@ -54,9 +72,14 @@ fn main() {
     let code = rt.block_on(async {
         match cli.prop.as_str() {
             "C14" => c14::run_prop(&cli).await,
+            // C01 through the application: the configured (or default) authentication service decides
+            "C01" => match session_listener {
+                Some(l) => c01net::run_prop(&cli, c01net::start_mock(l)).await,
+                None => 2,
+            },
             // C02 at the listener: the expiry and secret the operator configured reach the connection
             // (passage::start) and the client address the cookie is compared with is the effective one
-            "C02" => {
+            "C02" | "C10" => {
                 let mut report = vp_common::Report::new(&cli, "exploration", "listener-level part of C02: cookies around the configured expiry and under other secrets against listeners started through passage::start (also after a stall), and the client address seen by services / bound into cookies behind PROXY protocol; distinct = case");
                 c14::run(&cli, &mut report).await;
                 c15::run(&cli, &mut report).await;
@@ -67,11 +90,26 @@ fn main() {
             "C08" => c08net::run_prop(&cli).await,
             // C03 through the application: the configured localization decides the refusal text
             "C03" => c03net::run_prop(&cli).await,
+            // C05 at the listener: everything the client receives after the switch is one cipher stream,
+            // also when the server ends the connection with an error
+            "C05" => {
+                let mut report = vp_common::Report::new(&cli, "exploration", "listener-level part of C05: complete logins over loopback TCP against applications started from their configuration, ended by the server (no target); the whole clientbound byte stream after the switch must decrypt under the independent cipher into whole frames; distinct = (deployment, client locale)");
+                c03net::run(&cli, &mut report).await;
+                report.retain_violations(|sig| sig.starts_with("clientbound-stream-not-one-cipher-stream"));
+                report.finish()
+            }
             // C04 through the application wiring: frames around the configured maximum via passage::start
             "C04" => {
                 let mut report = vp_common::Report::new(&cli, "exploration", "listener-level part of C04: Status Request frames padded to max / max+1 / max+12 / 10×max against listeners started through passage::start from Config values and config files; distinct = (listener configuration, declared length)");
                 c14::run(&cli, &mut report).await;
                 report.retain_violations(|sig| sig.starts_with("frame-"));
+                report.finish()
+            }
+            // C06 at the listener: what a connection that is cut off at the deadline is sent
+            "C06" => {
+                let mut report = vp_common::Report::new(&cli, "exploration", "listener-level part of C06: silent, dripping, stalled-status and stalled-login clients (stopped after each step) against listeners started through passage::start, until the server's deadline closes them; what they were sent is decoded (decrypted where the client had switched) and must be nothing beyond the packets of the step they were in; distinct = (listener configuration, behaviour)");
+                c14::run(&cli, &mut report).await;
+                report.retain_violations(|sig| sig.starts_with("reply-at-deadline"));
                 report.finish()
             }
             "C15" => c15::run_prop(&cli).await,
